@@ -769,6 +769,9 @@ type PtrNode struct {
 	untouched bool
 	nilDrawn  bool
 	nilChoice bool
+	preDrawn  bool
+	prefilled bool
+	preDest   *int
 }
 
 func newPtr(name string, notNil bool, el *IntNode) *PtrNode {
@@ -786,8 +789,22 @@ func (n *PtrNode) Input() (any, bool) { return n.El.Input() }
 func (n *PtrNode) Prep(mode int, dest any) {
 	d := dest.(**int)
 	if mode == Parse {
-		*d = nil
-		n.El.pre = 0
+		// the destination pointer is nil, or already points to a value the caller owns
+		if !n.preDrawn {
+			n.preDrawn, n.prefilled = true, v.Choice(n.name+".prefilled", 2) == 1
+		}
+		if n.prefilled {
+			cell := new(int) // a fresh pointee per run (two runs of one shape must not share it)
+			*cell = 777
+			*d = cell
+			n.El.pre = 777
+			n.El.zeroPre = false
+		} else {
+			*d = nil
+			n.El.pre = 0
+			n.El.zeroPre = true
+		}
+		n.preDest = *d
 		return
 	}
 	if !n.nilDrawn {
@@ -821,6 +838,16 @@ func (n *PtrNode) Ref(mode int, path string) []Iss {
 }
 func (n *PtrNode) DestOK(mode int, dest any) bool {
 	d := *dest.(**int)
+	if mode == Parse {
+		if n.untouched {
+			// absent: the pointer is left exactly as it was (nil, or the caller's pointee untouched)
+			return d == n.preDest && (d == nil || *d == 777)
+		}
+		if d == nil || (n.prefilled && d != n.preDest) {
+			return false // present: allocated if nil, filled in place otherwise
+		}
+		return n.El.DestOK(mode, d)
+	}
 	if n.untouched {
 		return d == nil
 	}
